@@ -2,6 +2,8 @@
 
 mod errtree;
 mod c05;
+mod c11;
+mod c14;
 
 use vfcommon::Args;
 
@@ -12,6 +14,8 @@ fn main() {
         "C04" => errtree::run(&args, errtree::Mode::Algebra),
         "C03" => errtree::run(&args, errtree::Mode::Spans),
         "C05" => c05::run(&args),
+        "C11" => c11::run(&args),
+        "C14" => c14::run(&args),
         other => vfcommon::die(&format!("direct: no monitor for {other}")),
     };
     std::process::exit(code);
